@@ -240,10 +240,25 @@ func (eng *Engine) initExterns() {
 	E["errors.As"] = func(x *Exec, st *State, cc *ssa.CallCommon, fn *ssa.Function, args []Val, resT types.Type, k func(*State, Val)) {
 		tb(x, errNote)
 		a := args[0].(Term)
-		r := st.fresh("errors.As", SB)
+		// deterministic in the error and the target type: errors.as(err, tag) and, for a pointer-typed
+		// target, errors.as.target(err, tag) is what the target receives
+		tag := x.declare("tag.as.unknown", SI)
+		if len(cc.Args) >= 2 {
+			if mi, ok := cc.Args[1].(*ssa.MakeInterface); ok {
+				if pt, ok := mi.X.Type().(*types.Pointer); ok {
+					tag = x.declare(sanitize("tag.as."+typeName(pt.Elem())), SI)
+				}
+			}
+		}
+		x.decls["errors.as"] = "fun:(Int Int) Bool"
+		r := UF(SB, "errors.as", a, tag)
 		st.assume(Imp(Eq(a, TInt(0)), Not(r)))
-		// target is written when r holds: it arrives boxed in an interface{}; havoc the pointed cell
-		x.havocThroughIface(st, cc, args[1])
+		x.writeThroughIface(st, cc, func(t types.Type) Val {
+			if _, isPtr := under(t).(*types.Pointer); isPtr {
+				return UF(SI, "errors.as.target", a, tag)
+			}
+			return st.freshVal("as.target", t)
+		})
 		k(st, r)
 	}
 	newErr := func(x *Exec, st *State, cc *ssa.CallCommon, fn *ssa.Function, args []Val, resT types.Type, k func(*State, Val)) {
@@ -325,6 +340,21 @@ func (eng *Engine) initExterns() {
 	E["sonic.Marshal"] = func(x *Exec, st *State, cc *ssa.CallCommon, fn *ssa.Function, args []Val, resT types.Type, k func(*State, Val)) {
 		tb(x, jsonNote)
 		k(st, &TupleVal{[]Val{UF(SI, "json.enc", args[0].(Term)), st.fresh("json.err", SI)}})
+	}
+	E["sonic.Unmarshal"] = func(x *Exec, st *State, cc *ssa.CallCommon, fn *ssa.Function, args []Val, resT types.Type, k func(*State, Val)) {
+		tb(x, jsonNote)
+		data := st.scalar(args[0], cc.Args[0].Type())
+		// the target arrives as `make interface{} <- *T (p)`: a pointer-typed or integer target cell receives
+		// json.dec(data) (the same bytes decode to the same value); any other target is havocked
+		x.writeThroughIface(st, cc, func(t types.Type) Val {
+			if sortOf(t) == SI {
+				if _, isPtr := under(t).(*types.Pointer); isPtr {
+					return UF(SI, "json.dec", data)
+				}
+			}
+			return st.freshVal("json.target", t)
+		})
+		k(st, UF(SI, "json.decerr", data))
 	}
 	// ---- environment / parsing: deterministic uninterpreted functions of their input ----
 	const envNote = "os.Getenv, strconv.Atoi/ParseBool, time.ParseDuration: uninterpreted functions of the input string (same input, same result)"
@@ -634,7 +664,11 @@ func (x *Exec) callValue(st *State, f Val, args []Val, k func(st *State, res Val
 }
 
 func (x *Exec) havocThroughIface(st *State, cc *ssa.CallCommon, v Val) {
-	// the argument is `make interface{} <- *T (p)`: find p syntactically
+	x.writeThroughIface(st, cc, func(t types.Type) Val { return st.freshVal("as.target", t) })
+}
+
+// writeThroughIface: the second argument is `make interface{} <- *T (p)`: find p syntactically and store val(T) in *p.
+func (x *Exec) writeThroughIface(st *State, cc *ssa.CallCommon, val func(types.Type) Val) {
 	if len(cc.Args) < 2 {
 		return
 	}
@@ -649,12 +683,12 @@ func (x *Exec) havocThroughIface(st *State, cc *ssa.CallCommon, v Val) {
 		case *PLocal:
 			c := st.cells[pv.Cell]
 			if c.spilled {
-				st.storeObj(c.ref, c.T, nil, st.freshVal("as.target", c.T))
+				st.storeObj(c.ref, c.T, nil, val(c.T))
 			} else {
-				c.V = st.freshVal("as.target", c.T)
+				c.V = val(c.T)
 			}
 		case Term:
-			st.storeObj(pv, pt.Elem(), nil, st.freshVal("as.target", pt.Elem()))
+			st.storeObj(pv, pt.Elem(), nil, val(pt.Elem()))
 		}
 	}
 }
